@@ -2,6 +2,7 @@ package main
 
 import (
 	"fmt"
+	"go/types"
 
 	"golang.org/x/tools/go/ssa"
 )
@@ -211,5 +212,133 @@ func init() {
 			p.fsNoteOpen("dir:"+s.Conc(), a[1])
 		}
 		return Iface{}
+	})
+}
+
+// deepEqualTerm models reflect.DeepEqual on interpreter values.
+func (p *Path) deepEqualTerm(a, b Value, depth int) *Term {
+	if depth > 60 {
+		return TrueT
+	}
+	switch x := a.(type) {
+	case *Term:
+		y, ok := b.(*Term)
+		if !ok || x.S != y.S {
+			return FalseT
+		}
+		return Eq(x, y)
+	case Str:
+		y, ok := b.(Str)
+		if !ok {
+			return FalseT
+		}
+		return strEq(x, y)
+	case Struct:
+		y, ok := b.(Struct)
+		if !ok || len(x) != len(y) {
+			return FalseT
+		}
+		r := TrueT
+		for i := range x {
+			r = And(r, p.deepEqualTerm(x[i], y[i], depth+1))
+			if r.IsFalse() {
+				return r
+			}
+		}
+		return r
+	case Array:
+		y, ok := b.(Array)
+		if !ok || len(x) != len(y) {
+			return FalseT
+		}
+		r := TrueT
+		for i := range x {
+			r = And(r, p.deepEqualTerm(x[i], y[i], depth+1))
+		}
+		return r
+	case Slice:
+		y, ok := b.(Slice)
+		if !ok || x.Nil != y.Nil || len(x.A) != len(y.A) {
+			return FalseT
+		}
+		r := TrueT
+		for i := range x.A {
+			r = And(r, p.deepEqualTerm(x.A[i], y.A[i], depth+1))
+			if r.IsFalse() {
+				return r
+			}
+		}
+		return r
+	case *Value:
+		y, ok := b.(*Value)
+		if !ok {
+			return FalseT
+		}
+		if x == nil || y == nil {
+			return BoolC(x == nil && y == nil)
+		}
+		if x == y {
+			return TrueT
+		}
+		return p.deepEqualTerm(*x, *y, depth+1)
+	case Iface:
+		y, ok := b.(Iface)
+		if !ok {
+			return FalseT
+		}
+		if x.T == nil || y.T == nil {
+			return BoolC(x.T == nil && y.T == nil)
+		}
+		if !types.Identical(x.T, y.T) {
+			return FalseT
+		}
+		return p.deepEqualTerm(x.V, y.V, depth+1)
+	case *MapObj:
+		y, ok := b.(*MapObj)
+		if !ok {
+			return FalseT
+		}
+		if x == nil || y == nil {
+			return BoolC(x == nil && y == nil)
+		}
+		if len(x.Keys) != len(y.Keys) {
+			return FalseT
+		}
+		return BoolC(x == y) // conservative
+	case *Native:
+		y, ok := b.(*Native)
+		if !ok {
+			return FalseT
+		}
+		if x == y {
+			return TrueT
+		}
+		if px, ok := x.Data.(*pointObj); ok {
+			if py, ok := y.Data.(*pointObj); ok {
+				return bytesEqTerm(px.tag, py.tag)
+			}
+		}
+		if sx, ok := x.Data.(*scalarObj); ok {
+			if sy, ok := y.Data.(*scalarObj); ok {
+				return bytesEqTerm(sx.tag, sy.tag)
+			}
+		}
+		return BoolC(x.Kind == y.Kind && x.Kind == "opaque")
+	case FuncNil:
+		_, ok := b.(FuncNil)
+		return BoolC(ok)
+	}
+	return equals(a, b)
+}
+
+func init() {
+	reg("reflect.DeepEqual", func(p *Path, fn *ssa.Function, a []Value) Value { return p.deepEqualTerm(a[0], a[1], 0) })
+	reg("reflect.TypeOf", func(p *Path, fn *ssa.Function, a []Value) Value {
+		ifc := a[0].(Iface)
+		name := "<nil>"
+		if ifc.T != nil {
+			name = ifc.T.String()
+		}
+		return Iface{T: p.eng.opaqueT, V: &Native{Kind: "reflect:type", Data: name}}
 	})
 }
